@@ -69,8 +69,34 @@ func runCase(t *tnode, vn *vnode, cross bool) (r result) {
 	}
 	r.bytes = b
 	out := reflect.New(t.typ[flZ])
+	if inD {
+		// The value is inside the documented domain: whatever Unmarshal can or
+		// cannot do with it later, Marshal's output must be THE DER encoding of
+		// the value under the declared type. Two independent oracles:
+		// (1) the harness's typed walker (identifier octets computed from the
+		// field options by the harness, content octets by its own encoders),
+		// (2) Go's standard encoding/asn1.Marshal on the same value and type
+		// (the fork documents no deliberate difference for Marshal).
+		if why := walkDER(b, walkCfg{single: true, allowEmptyBo: t.flag}); why != "" {
+			r.fail = "Marshal output is not DER [" + why + "]"
+			r.detail = why
+			return
+		}
+		if why := typedWalk(zv, b); why != "" {
+			r.fail = "Marshal output is not the encoding of the value under its declared type [" + why + "]"
+			r.detail = why
+			return
+		}
+		if cross {
+			if why, note := stdMarshalCheck(t, vn, b); why != "" {
+				r.fail = "Marshal output differs from Go's encoding/asn1 for the same value and type [" + why + "]"
+				r.detail = note
+				return
+			}
+		}
+	}
 	if lim != "" {
-		// documented limitation: only "does not panic" is checked.
+		// documented limitation: of Unmarshal only "does not panic" is checked.
 		r.calls++
 		if p, msg, site := ev.Try(func() { zasn1.Unmarshal(b, out.Interface()) }); p {
 			r.fail = "panic in Unmarshal @" + site + ": " + ev.MsgClass(msg)
@@ -142,43 +168,116 @@ func runCase(t *tnode, vn *vnode, cross bool) (r result) {
 		r.outcome = "round trip ok"
 	}
 	if cross {
-		r.notes = crossCheck(t, vn, b, want)
+		var viol string
+		r.notes, viol = crossCheck(t, vn, b, want, inD, false)
+		if viol != "" {
+			r.fail = "Go's encoding/asn1 disagrees about Marshal's output [" + viol + "]"
+			r.detail = viol
+			r.nonTriv = false
+		}
 	}
 	return
 }
 
+// stdMarshalCheck: byte comparison with the standard library's Marshal of the
+// same value under the same struct tags (flavour S types). why != "" = verdict.
+func stdMarshalCheck(t *tnode, vn *vnode, b []byte) (why, detail string) {
+	sv := mkval(t, vn, flS)
+	var sb []byte
+	var err error
+	if p, msg, _ := ev.Try(func() { sb, err = sasn1.Marshal(sv.Interface()) }); p {
+		return "", "stdlib Marshal panics: " + msg // the standard library's problem, not a verdict
+	}
+	switch {
+	case err != nil:
+		return "stdlib rejects the value: " + errClass(err.Error()), err.Error()
+	case !bytes.Equal(sb, b):
+		return "different bytes", "zcrypto " + hex.EncodeToString(b) + " stdlib " + hex.EncodeToString(sb)
+	}
+	return "", ""
+}
+
+// stdlibRejectsByDesign: the two places where the fork's Unmarshal deliberately
+// accepts what the standard library's rejects (repaired defects da54108 and
+// 5a1db0a; the standard library still has both): an EXPLICIT PRIVATE tag, and an
+// absent OPTIONAL EXPLICIT component in front of an element with empty content.
+func stdlibRejectsByDesign(t *tnode, class string) bool {
+	has := func(pred func(o *opt) bool) bool {
+		var rec func(t *tnode) bool
+		rec = func(t *tnode) bool {
+			if t.elem != nil {
+				return rec(t.elem)
+			}
+			for _, f := range t.fields {
+				if pred(f.opt) || rec(f.t) {
+					return true
+				}
+			}
+			return false
+		}
+		return rec(t)
+	}
+	switch class {
+	case "asn1: structure error: explicitly tagged member didn't match":
+		return has(func(o *opt) bool { return o.explicit && o.class == 3 })
+	case "asn1: structure error: explicit tag has no child":
+		return has(func(o *opt) bool { return o.explicit && o.optional })
+	}
+	return false
+}
+
 // crossCheck: Go's standard encoding/asn1 (which shares the tag syntax) must
-// read zcrypto's bytes as the same value, and would have produced the same bytes.
-// Observations only.
-func crossCheck(t *tnode, vn *vnode, b []byte, want string) (notes []string) {
+// read zcrypto's bytes as the same value. For values inside the domain a
+// disagreement is a verdict (viol), except the two rejection classes where the
+// fork differs by design (stdlibRejectsByDesign); outside the domain everything
+// is an observation. The Marshal comparison for values outside the domain that
+// Marshal accepts is an observation too.
+func crossCheck(t *tnode, vn *vnode, b []byte, want string, inD, witness bool) (notes []string, viol string) {
 	out := reflect.New(t.typ[flS])
 	var rest []byte
 	var err error
 	if p, _, _ := ev.Try(func() { rest, err = sasn1.Unmarshal(b, out.Interface()) }); p {
-		return []string{"stdlib Unmarshal panics"}
+		return []string{"stdlib Unmarshal panics"}, ""
 	}
 	switch {
 	case err != nil:
-		notes = append(notes, "stdlib Unmarshal rejects zcrypto's bytes ["+errClass(err.Error())+"]")
+		cl := errClass(err.Error())
+		notes = append(notes, "stdlib Unmarshal rejects zcrypto's bytes ["+cl+"]")
+		if inD && !stdlibRejectsByDesign(t, cl) {
+			viol = "stdlib Unmarshal rejects the bytes: " + cl
+		}
 	case len(rest) != 0:
 		notes = append(notes, "stdlib Unmarshal leaves trailing bytes")
+		if inD {
+			viol = "stdlib Unmarshal leaves trailing bytes"
+		}
 	case canon(out.Elem(), false) != want:
 		notes = append(notes, "stdlib decodes zcrypto's bytes to a different value")
+		if inD {
+			viol = "stdlib decodes the bytes to a different value"
+		}
 	default:
 		notes = append(notes, "stdlib decodes zcrypto's bytes to the same value")
+	}
+	pre := "outside the domain: "
+	if witness {
+		pre = ""
+	} else if inD {
+		notes = append(notes, "stdlib Marshal produces identical bytes") // verdict already passed in runCase
+		return
 	}
 	sv := mkval(t, vn, flS)
 	var sb []byte
 	if p, _, _ := ev.Try(func() { sb, err = sasn1.Marshal(sv.Interface()) }); p {
-		return append(notes, "stdlib Marshal panics")
+		return append(notes, "stdlib Marshal panics"), viol
 	}
 	switch {
 	case err != nil:
-		notes = append(notes, "stdlib Marshal rejects a value zcrypto accepts ["+errClass(err.Error())+"]")
+		notes = append(notes, pre+"stdlib Marshal rejects a value zcrypto accepts ["+errClass(err.Error())+"]")
 	case !bytes.Equal(sb, b):
-		notes = append(notes, "stdlib Marshal produces different bytes")
+		notes = append(notes, pre+"stdlib Marshal produces different bytes")
 	default:
-		notes = append(notes, "stdlib Marshal produces identical bytes")
+		notes = append(notes, pre+"stdlib Marshal produces identical bytes")
 	}
 	return
 }
